@@ -21,7 +21,8 @@ pub fn shape_matrix(n: usize, entry: Entry, full: bool, kbig: usize) -> Vec<(usi
         if !two {
             return vec![0];
         }
-        let mut o = vec![d, d + 1, d.saturating_sub(1), d + n, d.saturating_sub(n)];
+        // equal, off by one, off by n, and off by 2n / 4n (a two-chunks-at-a-time loop sees lengths modulo 2n)
+        let mut o = vec![d, d + 1, d.saturating_sub(1), d + n, d.saturating_sub(n), d + 2 * n, d.saturating_sub(2 * n), d + 4 * n];
         o.sort();
         o.dedup();
         o
@@ -72,7 +73,7 @@ pub fn c09_meta(tier: Tier) -> Meta {
     let (full, dense, nmax, cases) = c09_params(tier);
     basic(
         format!(
-            "For each transform (4 planners x f32/f64 x 2 directions; n in 1..={full} with the FULL product matrix, n up to {dense} with the one-dimension-at-a-time matrix, {cases} proptest-drawn structured lengths up to {nmax}) and each entry point: data length in {{1,n-1,n,n+1,2n-1,2n,2n+1,3n,kn-1,kn,kn+1}} (k=5 or 8), output length in {{equal,+-1,+-n}}, scratch in {{0,adv-1,adv,adv+1}}. \
+            "For each transform (4 planners x f32/f64 x 2 directions; n in 1..={full} with the FULL product matrix, n up to {dense} with the one-dimension-at-a-time matrix, {cases} proptest-drawn structured lengths up to {nmax}) and each entry point: data length in {{1,n-1,n,n+1,2n-1,2n,2n+1,3n,kn-1,kn,kn+1}} (k=5 or 8), output length in {{equal,+-1,+-n,+-2n,+4n}}, scratch in {{0,adv-1,adv,adv+1}}. \
              Expected verdict computed from the property text alone: well-shaped iff data is a positive multiple of n, lengths agree, scratch >= advertised. Oracle: catch_unwind; well-shaped => no panic and every chunk equals its single-chunk transform within 2.5*B; ill-shaped => a panic (any text; whether it is one of the documented texts is tallied), never a normal return. \
              All caller buffers are guard-paged (output/scratch NaN-filled) and the matrix is run on the optimised build and on the build with debug assertions + overflow checks. n=0 and empty data are outside the property's wording and are not judged. \
              Non-trivial: ill-shaped, or well-shaped with >= 2 chunks."
@@ -146,7 +147,7 @@ pub fn c03_meta(tier: Tier) -> Meta {
     let (dense, nmax, cases) = c03_params(tier);
     basic(
         format!(
-            "Well-shaped calls: every n in 0..={dense} x 4 planners x f32/f64 x 2 directions x 4 entry points x chunk counts cycling through 1..8, plus {cases} proptest-drawn structured lengths up to {nmax} (every AVX radix x every row residue mod 4, Rader/Bluestein primes, prime powers, smooth numbers ...) x chunks 1..8, plus EVERY prime with 11-smooth p-1 (AVX2 Rader) and with 23-smooth p-1 (portable Rader) up to 2^17 (quick) / 2^20 (thorough). Every caller-visible buffer (data, output, scratch of EXACTLY the advertised length) lives in its own mmap'ed region flush against a PROT_NONE guard page (end-flush orientation, and start-flush orientation for a second pass), so a one-element over-read or over-write in the optimised build is a SIGSEGV in the worker, which the parent turns into a violation with a shrunk replay. \
+            "Well-shaped calls: every n in 0..={dense} x 4 planners x f32/f64 x 2 directions x 4 entry points x chunk counts cycling through 1..8, plus {cases} proptest-drawn structured lengths up to {nmax} (every AVX radix x every row residue mod 4, Rader/Bluestein primes, prime powers, smooth numbers ...) x chunks 1..8, plus EVERY prime with 11-smooth p-1 (AVX2 Rader) and with 23-smooth p-1 (portable Rader) up to 2^17 (quick) / 2^20 (thorough). Every caller-visible buffer (data, output, scratch of EXACTLY the advertised length) lives in its own mmap'ed region flush against a PROT_NONE guard page (end-flush orientation, and start-flush orientation for a second pass), so a one-element over-read or over-write in the optimised build is a SIGSEGV in the worker, which the parent turns into a violation with a shrunk replay; a third pass places every buffer HALF an element off a page boundary (the weakest alignment a safe caller may pass: 4 bytes for Complex<f32>, 8 for Complex<f64>), so an alignment-assuming SIMD load/store faults. \
              Ill-shaped calls: the C09 shape matrix for n <= 64 and sampled lengths, same guard-paged buffers; must end in a panic, never a fault. \
              The same cases also run on a build with debug assertions and overflow checks, where rustfft's 28 bounds debug_assert!s in its unsafe accessors turn an index error into a panic that is classified as an out-of-bounds witness. \
              Transforms assembled from public constructors are covered by C12 with the same check. Thorough adds libFuzzer targets under AddressSanitizer (see fuzz/). \
@@ -173,7 +174,8 @@ pub fn c03_worker(ctx: &mut Ctx) {
                         // chunk counts cycle so that every (n mod 8, entry) combination sees all of 1..8 over the sweep
                         let k = 1 + (n + 3 * ei + if dir == Dir::Inv { 4 } else { 0 }) % 8;
                         let k = if n * k > 1 << 15 { 1 } else { k };
-                        for flush in 0..2i64 {
+                        // both guard-flush placements, plus one of the two half-element-misaligned placements
+                        for flush in [0i64, 1, 2 + ((n / 8 + ei) % 2) as i64] {
                             ctx.exec(
                                 &Case::new("C03", "guard", planner, ty, dir, n)
                                     .with_entry(*entry)
@@ -234,7 +236,7 @@ pub fn c03_worker(ctx: &mut Ctx) {
     }
     let fams = Families::new(nmax);
     let nf = fams.count();
-    let strat = (0..nf, any::<u64>(), 0..4usize, 0..2usize, 0..2usize, 0..4usize, 1..=8usize, 0..2i64).prop_map(
+    let strat = (0..nf, any::<u64>(), 0..4usize, 0..2usize, 0..2usize, 0..4usize, 1..=8usize, 0..4i64).prop_map(
         move |(fam, r, pl, ty, dir, en, k, flush)| {
             let (n, _) = fams.pick_biased(fam, r);
             let k = if n * k > 1 << 17 { 1 } else { k };
@@ -253,7 +255,7 @@ pub fn c03_worker(ctx: &mut Ctx) {
 
 fn c06_params(tier: Tier) -> (usize, usize, u32) {
     match tier {
-        Tier::Quick => (512, 1 << 18, 1600),
+        Tier::Quick => (1536, 1 << 18, 3200),
         Tier::Thorough => (4096, 1 << 22, 4000),
     }
 }
@@ -261,7 +263,7 @@ pub fn c06_meta(tier: Tier) -> Meta {
     let (dense, nmax, cases) = c06_params(tier);
     basic(
         format!(
-            "Metamorphic, oracle-free: for (planner, type, n) with n in 1..={dense} exhaustively and {cases} proptest-drawn structured lengths up to {nmax}: plan both directions (forward-then-inverse on one planner, inverse-then-forward on one planner, or two planners), apply them through two independently chosen entry points to a generated input x and require ||inv(fwd(x)) - n*x|| <= 2.5*B*n*||x||, the same for fwd(inv(x)), and ||inv(x) - conj(fwd(conj x))|| <= 2.5*B*||.||, B = 16*eps*log2(2n) (2B + B^2 < 2.5B, so any C02-conforming pair passes). A stray 1/n or 1/sqrt(n) scaling, or a direction mix-up in a cache, is an O(1) miss. \
+            "Metamorphic, oracle-free: for (planner, type, n) with n in 1..={dense} exhaustively, every prime up to 2^14 (quick) / 2^17 (thorough) on a rotating concrete planner, and {cases} proptest-drawn structured lengths up to {nmax}: plan both directions (forward-then-inverse on one planner, inverse-then-forward on one planner, or two planners), apply them through two independently chosen entry points to a generated input x and require ||inv(fwd(x)) - n*x|| <= 2.5*B*n*||x||, the same for fwd(inv(x)), and ||inv(x) - conj(fwd(conj x))|| <= 2.5*B*||.||, B = 16*eps*log2(2n) (2B + B^2 < 2.5B, so any C02-conforming pair passes). A stray 1/n or 1/sqrt(n) scaling, or a direction mix-up in a cache, is an O(1) miss. \
              Non-trivial: n >= 2 and x != 0; distinct = (planner,type,n,order,entry pair,input)."
         ),
         "dense range enumerated completely for all 3 planning orders; structured part sampled",
@@ -293,6 +295,27 @@ pub fn c06_worker(ctx: &mut Ctx) {
             return;
         }
     }
+    // every prime up to 2^14 (quick) / 2^17 (thorough): Rader/Bluestein set-up (primitive roots, chirps) is per-prime code
+    {
+        let pmax = ctx.tier.pick(1usize << 14, 1 << 17);
+        let fams = Families::new(pmax);
+        let primes: Vec<usize> = fams.fams.iter().find(|f| f.0 == "prime_any").map(|f| f.1.clone()).unwrap_or_default();
+        for (i, &q) in primes.iter().enumerate().rev() {
+            if q <= dense || !ctx.mine() {
+                continue;
+            }
+            let planner = [Planner::Scalar, Planner::Sse, Planner::Avx][i % 3];
+            ctx.exec(
+                &Case::new("C06", "roundtrip", planner, TYS[(i / 3) % 2], Dir::Fwd, q)
+                    .with_entry(ENTRIES[i % 4])
+                    .with_input(InputSpec::fam("uniform", q as u64))
+                    .with_p(vec![(i % 3) as i64, ((i / 2) % 4) as i64]),
+            );
+            if ctx.done() {
+                return;
+            }
+        }
+    }
     let fams = Families::new(nmax);
     let nf = fams.count();
     let strat = (0..nf, any::<u64>(), 0..4usize, 0..2usize, 0..3i64, 0..4usize, 0..4i64, 0..crate::gen::INPUT_FAMILIES.len(), any::<u64>()).prop_map(
@@ -312,7 +335,7 @@ pub fn c06_worker(ctx: &mut Ctx) {
 
 fn c07_params(tier: Tier) -> (usize, usize, u32) {
     match tier {
-        Tier::Quick => (512, 1 << 13, 2400),
+        Tier::Quick => (1024, 1 << 14, 4800),
         Tier::Thorough => (2048, 1 << 16, 9600),
     }
 }
@@ -349,8 +372,9 @@ pub fn c07_worker(ctx: &mut Ctx) {
                                 .with_input(InputSpec::fam(["uniform", "silence_mix", "periodic", "spikes"][(n + ei) % 4], n as u64 * 5 + ei as u64))
                                 .with_p(vec![keep, filler]),
                         );
-                        // the smallest even / odd counts always
-                        for k2 in [2usize, 3] {
+                        // the smallest even / odd counts always, and for short transforms one count beyond 8
+                        let kbig = 9 + (n + ei) % 9;
+                        for k2 in if n <= 128 { vec![2usize, 3, kbig] } else { vec![2usize, 3] } {
                             if k2 != k {
                                 ctx.exec(
                                     &Case::new("C07", "chunks", planner, ty, dir, n)
@@ -371,9 +395,12 @@ pub fn c07_worker(ctx: &mut Ctx) {
     }
     let fams = Families::new(nmax);
     let nf = fams.count();
-    let strat = (0..nf, any::<u64>(), 0..4usize, 0..2usize, 0..2usize, 0..4usize, 1..=8usize, 0..8i64, 1..=5i64, any::<u64>()).prop_map(
+    // chunk counts 1..8 as the property's quantifier says, and now and then 9..17 (the statement covers every k >= 1; a
+    // wider unroll factor or a batch loop would first show beyond 8)
+    let strat = (0..nf, any::<u64>(), 0..4usize, 0..2usize, 0..2usize, 0..4usize, prop_oneof![5 => 1..=8usize, 1 => 9..=17usize], 0..8i64, 1..=5i64, any::<u64>()).prop_map(
         move |(fam, r, pl, ty, dir, en, k, keep, filler, seed)| {
             let (n, _) = fams.pick_biased(fam, r);
+            let k = if n * k > 1 << 17 { k.min(8) } else { k };
             Case::new("C07", "chunks", PLANNERS[pl], TYS[ty], DIRS[dir], n)
                 .with_entry(ENTRIES[en])
                 .with_chunks(k)
@@ -389,7 +416,7 @@ pub fn c07_worker(ctx: &mut Ctx) {
 
 fn c08_params(tier: Tier) -> (usize, usize, u32) {
     match tier {
-        Tier::Quick => (512, 1 << 14, 3200),
+        Tier::Quick => (2048, 1 << 15, 6400),
         Tier::Thorough => (3000, 1 << 18, 12800),
     }
 }
@@ -472,7 +499,7 @@ pub fn c15_meta(tier: Tier) -> Meta {
     let (dense, nmax, cases) = c15_params(tier);
     basic(
         format!(
-            "process_immutable_with_scratch on every n in 1..={dense} x 4 planners x f32/f64 x 2 directions with chunk counts cycling over 1..8, and {cases} proptest-drawn structured lengths up to {nmax}; well-shaped calls and the ill-shaped immutable shapes of the C09 matrix (wrong data/output/scratch lengths, ending in a panic that is caught). Oracle: the input slice is compared bit-for-bit before/after, also when the call panics; half of the cases additionally place the input in a PROT_READ mapping, so a write-then-restore is a fault in the worker. Scratch initial contents vary (zero/NaN/Inf/huge). Also run on the build with debug assertions. \
+            "process_immutable_with_scratch on every n in 1..={dense} x 4 planners x f32/f64 x 2 directions with chunk counts cycling over 1..8, and {cases} proptest-drawn structured lengths up to {nmax}; well-shaped calls and the ill-shaped immutable shapes of the C09 matrix (wrong data/output/scratch lengths, ending in a panic that is caught). Oracle: the input slice is compared bit-for-bit before/after, also when the call panics; half of the cases additionally place the input in a PROT_READ mapping, so a write-then-restore is a fault in the worker. Scratch initial contents vary (zero/NaN/Inf/huge). Every n of the dense range is also checked on a transform obtained from a planner WITH history (opposite direction of the same length and a multiple planned first on the same Scalar/Sse/Avx planner): one read-only well-shaped call and three ill-shaped calls. Also run on the build with debug assertions. \
              Non-trivial: n >= 2; distinct = (planner,type,direction,n,shape,readonly,input)."
         ),
         "dense range enumerated completely; structured part sampled",
@@ -510,6 +537,21 @@ pub fn c15_worker(ctx: &mut Ctx) {
                                 .with_input(InputSpec::fam("wide", n as u64))
                                 .with_p(vec![n as i64, n as i64, 2, 1, 1]),
                         );
+                    }
+                    // the same transform obtained from a planner WITH history (the opposite direction of the same length, and a
+                    // multiple, planned first): a read-only well-shaped call and two ill-shaped calls (ragged input, short scratch)
+                    if n >= 2 && planner != Planner::Auto {
+                        let hist = |pick_dir: Dir| Source::History { reqs: vec![Req { n, dir: pick_dir.other() }, Req { n: 2 * n, dir: pick_dir }, Req { n, dir: pick_dir }], pick: 2 };
+                        let nn = n as i64;
+                        for (d, o, s, ro) in [(nn, nn, 2i64, 1i64), (nn + 1, nn + 1, 2, 0), (2 * nn, 2 * nn, 1, 0), (nn, nn - 1, 2, (n % 2) as i64)] {
+                            ctx.exec(
+                                &Case::new("C15", "immut", planner, ty, dir, n)
+                                    .with_entry(Entry::Immutable)
+                                    .with_source(hist(dir))
+                                    .with_input(InputSpec::fam("uniform", (n * 3) as u64 + d as u64))
+                                    .with_p(vec![d, o, s, ro, (n % 5) as i64]),
+                            );
+                        }
                     }
                     if n <= 96 || n % 29 == 0 {
                         for (d, o, s) in shape_matrix(n, Entry::Immutable, false, 5) {
